@@ -109,6 +109,8 @@ def families():
         [xspec([lit("l")], True, ep="E", defaults={"v1": "en"}), xspec([lit("l"), s], True, ep="E")],
         [xspec([lit("d"), i, lit("p")], True, ep="E", defaults={"v3": 1}), xspec([lit("d"), i, lit("p"), i], False, ep="E")],
         [xspec([], True, ep="E", defaults={"v0": "é x"}), xspec([s], True, ep="E")],
+        [xspec([lit("d")], True, ep="E", defaults={"v1": 1}), xspec([lit("e"), i, i], False, ep="E")],  # different arguments
+        [xspec([lit("d")], True, ep="E", defaults={"v1": 1, "v9": 2}), xspec([lit("e"), i], False, ep="E")],  # different arguments
         [xspec([lit("c"), i], False, ep="E"), xspec([lit("al"), i], False, ep="E", alias=True)],
         [xspec([lit("c"), s], True, ep="E"), xspec([lit("al"), s], True, ep="E", alias=True)],
         [xspec([lit("c"), pth()], False, ep="E"), xspec([lit("al"), pth()], True, ep="E", alias=True)],
@@ -463,12 +465,12 @@ def build_tasks(tier, seed):
         for a, b in itertools.combinations(range(len(two)), 2):
             multi.append(([two[a], two[b]], [(k + 13 * j) % len(ENVS) for j in range(6)], [True, False], [(0, 1), (1, 0)]))
             k += 5
-        for _ in range(6000):
+        for _ in range(2000):
             n = r.choice([3, 3, 4, 4, 5, 6])
             sps = [r.choice(two) for _ in range(n)]
             if r.random() < 0.6:
                 sps = r.choice(fams) + sps[: n - 2]
-            perms = [tuple(range(len(sps)))] + [tuple(r.sample(range(len(sps)), len(sps))) for _ in range(3)]
+            perms = [tuple(range(len(sps)))] + [tuple(r.sample(range(len(sps)), len(sps))) for _ in range(1)]
             multi.append((sps, [r.randrange(len(ENVS)) for _ in range(3)], [True, False], perms))
     tasks += [("multi", c) for c in _chunks(multi, 6)]
     return tasks
@@ -476,7 +478,7 @@ def build_tasks(tier, seed):
 
 DOMAIN = (
     "rules of the C03 grammar (13 shapes: literal / string / int / int(fixed_digits) / x<string> / path segments, leaf and "
-    "branch, root) with per-rule strict_slashes and merge_slashes overrides, defaults families (5) and alias families (4); "
+    "branch, root) with per-rule strict_slashes and merge_slashes overrides, defaults families (7) and alias families (4); "
     "map-level strict_slashes x merge_slashes, redirect_defaults on/off; script_name '/', '/app', '/app/'; schemes http, "
     "https, ws (websocket rules); no subdomain, static subdomain, variable subdomain; query arguments none, string, "
     "mapping (given to bind or to match). 1-rule maps: 13 shapes x 4 map settings x all 108 environments, the 8 per-rule "
@@ -491,6 +493,9 @@ def run(tier, seed, reg=None):
     common.assert_tree()
     t0 = time.time()
     tasks = build_tasks(tier, seed)
+    sub = int(os.environ.get("BOUNDED_SUBSAMPLE", "1"))  # development aid (mutant screening): every k-th task only
+    if sub > 1:
+        tasks = tasks[::sub]
     acc = Acc()
     procs = min(16, os.cpu_count() or 4)
     ctx = mp.get_context("fork")
@@ -508,13 +513,13 @@ def run(tier, seed, reg=None):
             failures.append({"check": check, "input": common._j(inp), "observed": str(obs)[:500], "expected": "; ".join(exp)[:300]})
     dom = DOMAIN
     if tier == "thorough":
-        dom += ("; thorough adds all pairs again under 6 environments each with redirect_defaults on/off and 6000 seeded random "
-                "maps of 3-6 rules (with a family in 60%), 4 insertion orders, 3 environments each")
+        dom += ("; thorough adds all pairs again under 6 environments each with redirect_defaults on/off and 2000 seeded random "
+                "maps of 3-6 rules (with a family in 60%), 2 insertion orders, 3 environments each")
     return {"evaluations": acc.evals, "distinct_nontrivial": acc.nontrivial,
             "rule": "one evaluation = one MapAdapter.match(path) on one (map, settings, environment); distinct_nontrivial = "
                     "evaluations that raised RequestRedirect (each gets the host/syntax/query/converge/same checks, following up "
                     "to 5 hops)",
-            "domain": dom, "exhaustive": True, "samples": [], "failures": failures[:25], "failure_counts": acc.fail_counts,
+            "domain": dom, "exhaustive": sub == 1 and tier == "quick", "samples": [], "failures": failures[:25], "failure_counts": acc.fail_counts,
             "maps": acc.maps, "redirect_chains_by_kind": acc.kinds, "wall_s": round(time.time() - t0, 2)}
 
 
